@@ -3,6 +3,7 @@ package sym
 import (
 	"fmt"
 	"go/types"
+	"strconv"
 	"strings"
 	"sync"
 
@@ -610,6 +611,78 @@ func registerModels(in *Interp) {
 		}
 		st.Assumed = append(st.Assumed, "regexp.ReplaceAll(v, \"\") is an uninterpreted function that neither deletes nor creates a hostile fragment")
 		return one(BytesV{S: smt.UF("rmall."+fmt.Sprint(r.ID), smt.String, src)})
+	}
+	M["(*regexp.Regexp).FindStringIndex"] = func(in *Interp, st *State, cc *ssa.CallCommon, args []Value) []Alt {
+		r := regexOf(st, args[0])
+		s := termOf(args[1])
+		if r.Known == nil || r.Known.Re == nil || r.Known.Unsupported != "" {
+			panic("FindStringIndex on opaque or untranslatable regexp")
+		}
+		if s.IsConst() {
+			loc := r.Known.Re.FindStringIndex(s.S)
+			if loc == nil {
+				return one(SliceV{})
+			}
+			return []Alt{effRet(func(st *State) Value {
+				return newSlice(in, st, []Value{smt.IntC(int64(loc[0])), smt.IntC(int64(loc[1]))})
+			})}
+		}
+		// body language: the pattern must be anchor free
+		body := r.Known.Body
+		anch := false
+		smt.Walk(body, func(x *smt.Term) {
+			if x.IsConst() && (strings.Contains(x.S, smt.MarkB) || strings.Contains(x.S, smt.MarkE)) {
+				anch = true
+			}
+		})
+		if anch {
+			panic("FindStringIndex model needs an anchor-free pattern")
+		}
+		m := MatchTerm(r, s)
+		st.Calls["model:FindStringIndex"]++
+		max := in.Cfg.Params["maxFindIndex"]
+		if max == 0 {
+			max = 2
+		}
+		alts := []Alt{{Cond: smt.Not(m), Ret: SliceV{}}}
+		if st.Calls["model:FindStringIndex"] > max {
+			alts = append(alts, Alt{Cond: m, Stop: Cut, Why: fmt.Sprintf("more than %d regexp matches in one value", max), Eff: func(st *State) {
+				st.Assumed = append(st.Assumed, fmt.Sprintf("FindStringIndex>%d", max))
+			}})
+			return alts
+		}
+		found := effRet(func(st *State) Value {
+			a := st.fresh("fsi.a", smt.Int)
+			b := st.fresh("fsi.b", smt.Int)
+			st.assume(smt.And(smt.Le(smt.IntC(0), a), smt.Le(a, b), smt.Le(b, smt.StrLen(s)),
+				smt.InRe(smt.Substr(s, a, smt.Sub(b, a)), body)))
+			return newSlice(in, st, []Value{a, b})
+		})
+		found.Cond = m
+		return append(alts, found)
+	}
+	M["strconv.Unquote"] = func(in *Interp, st *State, cc *ssa.CallCommon, args []Value) []Alt {
+		s := termOf(args[0])
+		if s.IsConst() {
+			v, err := strconv.Unquote(s.S)
+			if err != nil {
+				return one(TupleV{smt.StrC(""), IfaceV{T: errType("strconv"), V: &OpaqueV{Kind: "err", ID: 3}}})
+			}
+			return one(TupleV{smt.StrC(v), IfaceV{}})
+		}
+		okT := smt.UF("unquote.ok", smt.Bool, s)
+		return []Alt{
+			{Cond: okT, Ret: TupleV{smt.UF("unquote", smt.String, s), IfaceV{}}},
+			{Cond: smt.Not(okT), Ret: TupleV{smt.StrC(""), IfaceV{T: errType("strconv"), V: &OpaqueV{Kind: "err", ID: 3}}}},
+		}
+	}
+	M["(*encoding/base64.Encoding).DecodeString"] = func(in *Interp, st *State, cc *ssa.CallCommon, args []Value) []Alt {
+		s := termOf(args[1])
+		okT := smt.UF("base64.ok", smt.Bool, s)
+		return []Alt{
+			{Cond: okT, Ret: TupleV{BytesV{S: smt.UF("base64.dec", smt.String, s)}, IfaceV{}}},
+			{Cond: smt.Not(okT), Ret: TupleV{BytesV{S: smt.StrC(""), Nil: true}, IfaceV{T: errType("base64"), V: &OpaqueV{Kind: "err", ID: 4}}}},
+		}
 	}
 	// net/url
 	M["net/url.Parse"] = func(in *Interp, st *State, cc *ssa.CallCommon, args []Value) []Alt {
